@@ -8,6 +8,7 @@ import (
 	gofs "io/fs"
 	"math"
 	"sort"
+	"strings"
 
 	"github.com/hack-pad/hackpadfs"
 	"github.com/hack-pad/hackpadfs/cache"
@@ -63,6 +64,15 @@ func populate(fs hackpadfs.FS, dir string, cs []child) {
 	if dir != "." {
 		if err := hackpadfs.MkdirAll(fs, dir, 0o755); err != nil {
 			panic(err)
+		}
+		// a sibling the listed directory's name would MATCH if it were read as a glob pattern
+		if look := strings.NewReplacer("[1]", "1", "?", "X", "*", "ta", "\\", "").Replace(dir); look != dir {
+			if err := hackpadfs.MkdirAll(fs, look+"/decoydir", 0o755); err != nil {
+				panic(err)
+			}
+			if err := hackpadfs.WriteFullFile(fs, look+"/decoy", []byte{1}, 0o644); err != nil {
+				panic(err)
+			}
 		}
 		// decoys: siblings whose names extend the listed directory's name; nothing of theirs belongs in its listing
 		for _, suffix := range []string{"x", ".x", "-"} {
@@ -268,7 +278,7 @@ func runC16(r *Rng, n int, replay string) {
 		default:
 			k = r.Range(100, 300)
 		}
-		dir := []string{".", "d", "d/e", ".d", ".d/e", "d/.e"}[r.Intn(6)]
+		dir := []string{".", "d", "d/e", ".d", ".d/e", "d/.e", "d[1]", "w?", "s*r/e", "b\\c"}[r.Intn(10)]
 		cs := genChildren(r, k)
 		pages := genPages(r, k)
 		c16SetupErr = ""
